@@ -88,12 +88,13 @@ def threshold_value(dist, s, rng):
     return p / q
 
 
-def log_line(b, obj, dist, s, weighted, rng, flags, directed=False):
+def log_line(b, obj, dist, s, weighted, rng, flags, directed=False, just_above=None):
+    """just_above: None = drawn (a run); True / False = as logged (a replay)"""
     from hypergraphx.representations.projections import line_graph, directed_line_graph
     rec = {"dist": dist, "s": list(s), "weighted": weighted}
     try:
         sv = threshold_value(dist, s, rng)
-        if dist == "jaccard" and s[0] < s[1] and rng.random() < 0.3:
+        if dist == "jaccard" and s[0] < s[1] and (rng.random() < 0.3 if just_above is None else just_above):
             # a threshold a hair above p/q: the similarities of these inputs are fractions with denominators <= 12, none of
             # them lies in (p/q, p/q + 1/(1000 q)], so every threshold inside that gap selects the pairs ABOVE p/q; the code
             # gets p/q + 1e-10, the specification (1000 p + 1) / (1000 q)
@@ -456,3 +457,61 @@ def run(tier, seed):
                "hypergraph as it is, so the observation is judged against the state read back through the public API",
                "thorough: all 128 hypergraphs on 3 nodes (4 label families) and all 4096 directed hypergraphs on 3 nodes; larger ones are seeded samples")
     return res.finish()
+
+
+def replay(path):
+    """rebuild the object of a replay file (with its history, if it has one), call the functions with the logged arguments and
+    validate again.  Isolated nodes are those of the logged state; insertion order and listing orders are drawn anew."""
+    import json
+    with open(path) as f:
+        rp = json.load(f)
+    pl = rp["payload"]
+    d, logged, st = pl["case"], pl["logged"], pl["state"]
+    kind = d["kind"]
+    rng = random.Random(rp.get("seed", 0))
+    b = Binding(kind, d["labels"], rng)
+    h = d.get("history")
+    api = (lambda e: b._tuple(e)) if kind == "hg" else (lambda e: (b._tuple(e[0]), b._tuple(e[1])))
+    wts = {json.dumps([e["k"]["s"], e["k"]["t"]]): e["w"] for e in st["edges"]}
+
+    def w_of(e):
+        k = [sorted(e), []] if kind == "hg" else [sorted(e[0]), sorted(e[1])]
+        return {"weight": max(1, wts.get(json.dumps(k), 1))} if d["weighted"] else {}
+
+    def observe():
+        flags = []
+        c = {"kind": kind, "st": b.state(obj)}
+        if kind == "hg":
+            c["bip"] = log_bipartite(b, obj)
+            c["cliq"] = [log_clique(b, obj, keep, 2) for keep in (False, True)]
+            c["simp"] = log_simplicial(b, obj)
+        rows = logged.get("line" if kind == "hg" else "dline", [])
+        c["line" if kind == "hg" else "dline"] = [
+            log_line(b, obj, r["dist"], tuple(r.get("just_above", r["s"])), r["weighted"], rng, flags, directed=(kind == "dir"),
+                     just_above="just_above" in r) for r in rows]
+        return c, flags
+    obj = b.new(d["weighted"])
+    with quiet():
+        for n in st["nodes"]:
+            obj.add_node(b.lab(n))
+        for e in (h["hyperedges_before"] if h else d["hyperedges"]):
+            obj.add_edge(api(e), **w_of(e))
+        if h:
+            observe()
+            logged_first = {k: v[:1] for k, v in logged.items() if k in ("line", "dline")}
+            keep, logged = logged, dict(logged, **logged_first)
+            observe()
+            logged = keep
+            for e in h["removed"]:
+                obj.remove_edge(api(e))
+            for e in h["added"]:
+                obj.add_edge(api(e), **w_of(e))
+            if "set_weight" in h:
+                obj.set_weight(api(h["set_weight"][0]), h["set_weight"][1])
+    c, flags = observe()
+    v = K.run_cases("Trace_C10", [c], {"Kind": kind}, procs=1)
+    bad = [f for _, failed in v["rejects"] for f in failed] + (["weight_is_small_fraction"] if flags else [])
+    if bad:
+        print("VIOLATION property=C10 replay=%s\n  what: %s disagree(s) with Projections.tla for %s" % (path, ",".join(bad), d))
+    print("C10 replay %s" % ("FAIL" if bad else "PASS"))
+    return 1 if bad else 0
